@@ -241,4 +241,12 @@ def r17_5_stdlib_coupling(repo: Repo, rep: Report):
     rep.check("R17.5", "return self._exception" in src(exc), m, exc, "exception() returns the stored exception without blocking", "exception() must expose the stored exception")
 
 
-RULES = [r17_1_exactly_once, r17_2_timeout_unknown, r17_3_check_then_act, r17_4_cancel_every_state, r17_5_stdlib_coupling]
+def r17_6_shared(repo: Repo, rep: Report):
+    """every solver job of a test goes through the executor of that test's SolvingContext (the one that shutdown
+    reaches): contexts are created once per function and handed on, never re-created (shared with C16 R16.5)"""
+    from hsa.rules.c16 import r16_5_scope
+
+    r16_5_scope(repo, rep)
+
+
+RULES = [r17_6_shared, r17_1_exactly_once, r17_2_timeout_unknown, r17_3_check_then_act, r17_4_cancel_every_state, r17_5_stdlib_coupling]
